@@ -2,7 +2,11 @@
  * duplicates, empty vectors), feed it a stdin payload, and record what the kernel set up for it.
  * Used by the C07 check (lib/checks/c07.py) to start the no-libc start-up probe.
  *
- *   launch <casefile> <outfile> [timeout_ms]
+ *   launch <casefile> <outfile> [timeout_ms] [maxfail]
+ *
+ * After <maxfail> consecutive cases that did not exit with status 0 the remaining cases are not run
+ * (reported with "status":"skipped"): a probe that hangs or crashes on every start would otherwise
+ * cost one timeout per case.
  *
  * casefile (text):                       outfile (ndjson, one object per case):
  *   case <id>                              {"id":<id>,"status":"exit|signal|timeout|execfail","code":N,
@@ -12,6 +16,7 @@
  *   in <hex|->       (stdin payload)        "execfn":"<hex string at AT_EXECFN>",
  *   wait <prefix>    (optional)             "cmdline":"<hex /proc/<pid>/cmdline>","environ":"<hex>",
  *   stack            (optional)             "sp":N,"stack":"<hex of memory from the initial sp to the stack top>"}
+ *   ids <uid> <gid>  (optional: the child switches to these real/effective ids before the exec)
  *   end
  * The /proc data is read after the exec has happened (CLOEXEC sync pipe) and, if `wait` is given,
  * after the child has printed a line starting with <prefix> (so it is past its start-up code)
@@ -20,6 +25,7 @@
 #define _GNU_SOURCE
 #include <errno.h>
 #include <fcntl.h>
+#include <grp.h>
 #include <poll.h>
 #include <signal.h>
 #include <stdint.h>
@@ -76,12 +82,16 @@ struct kase {
     size_t inlen;
     char *wait;
     int want_stack;
+    long uid, gid;
 };
 
 static unsigned char out[MAXOUT];
 static unsigned char tmp[1 << 18];
 
+static int last_ok;
+
 static void run_case(struct kase *c, FILE *of, long timeout_ms) {
+    last_ok = 0;
     int pin[2], pout[2], psync[2];
     if (pipe(pin) || pipe(pout) || pipe2(psync, O_CLOEXEC)) { perror("pipe"); exit(2); }
     fflush(of);
@@ -91,6 +101,8 @@ static void run_case(struct kase *c, FILE *of, long timeout_ms) {
         dup2(pin[0], 0);
         dup2(pout[1], 1);
         close(pin[0]); close(pin[1]); close(pout[0]); close(pout[1]); close(psync[0]);
+        if (c->gid >= 0 && (setgroups(0, NULL) || setresgid((gid_t)c->gid, (gid_t)c->gid, (gid_t)c->gid))) _exit(126);
+        if (c->uid >= 0 && setresuid((uid_t)c->uid, (uid_t)c->uid, (uid_t)c->uid)) _exit(126);
         execve(c->bin, c->argv, c->envp);
         int e = errno;
         if (write(psync[1], &e, sizeof e) < 0) {}
@@ -220,7 +232,7 @@ static void run_case(struct kase *c, FILE *of, long timeout_ms) {
         }
         if (timed_out) fprintf(of, ",\"status\":\"timeout\",\"code\":0");
         else if (WIFSIGNALED(st)) fprintf(of, ",\"status\":\"signal\",\"code\":%d", WTERMSIG(st));
-        else fprintf(of, ",\"status\":\"exit\",\"code\":%d", WEXITSTATUS(st));
+        else { fprintf(of, ",\"status\":\"exit\",\"code\":%d", WEXITSTATUS(st)); last_ok = WEXITSTATUS(st) == 0; }
     }
     fprintf(of, ",\"out\":\""); puthex(of, out, olen); fprintf(of, "\"}\n");
 }
@@ -230,6 +242,7 @@ int main(int argc, char **argv) {
     FILE *cf = fopen(argv[1], "r");
     FILE *of = fopen(argv[2], "w");
     long timeout_ms = argc > 3 ? atol(argv[3]) : 5000;
+    long maxfail = argc > 4 ? atol(argv[4]) : 0, fails = 0;
     if (!cf || !of) { perror("open"); return 2; }
     static char line[1 << 16];
     struct kase c;
@@ -240,7 +253,8 @@ int main(int argc, char **argv) {
         char *sp = strchr(line, ' ');
         char *val = sp ? sp + 1 : line + l;
         if (sp) *sp = 0;
-        if (!strcmp(line, "case")) { memset(&c, 0, sizeof c); c.id = atol(val); }
+        if (!strcmp(line, "case")) { memset(&c, 0, sizeof c); c.id = atol(val); c.uid = c.gid = -1; }
+        else if (!strcmp(line, "ids")) { c.uid = atol(val); char *g = strchr(val, ' '); c.gid = g ? atol(g + 1) : -1; }
         else if (!strcmp(line, "bin")) c.bin = strdup(val);
         else if (!strcmp(line, "arg") && c.argc < MAXV) c.argv[c.argc++] = unhex(val, NULL);
         else if (!strcmp(line, "env") && c.envc < MAXV) c.envp[c.envc++] = unhex(val, NULL);
@@ -250,7 +264,8 @@ int main(int argc, char **argv) {
         else if (!strcmp(line, "end")) {
             c.argv[c.argc] = NULL;
             c.envp[c.envc] = NULL;
-            if (c.bin) run_case(&c, of, timeout_ms);
+            if (c.bin && maxfail && fails >= maxfail) fprintf(of, "{\"id\":%ld,\"status\":\"skipped\",\"code\":0}\n", c.id);
+            else if (c.bin) { run_case(&c, of, timeout_ms); fails = last_ok ? 0 : fails + 1; }
             free(c.bin); free(c.in); free(c.wait);
             for (int i = 0; i < c.argc; i++) free(c.argv[i]);
             for (int i = 0; i < c.envc; i++) free(c.envp[i]);
